@@ -75,6 +75,9 @@ class Recorder:
             objective = [[1, list(self.role_of(ob, roles))]]
         else:
             objective = self.lin(ob, roles)
+        # the model's problems are always maximisations: a minimised objective is recorded negated
+        if prob.sense == pulp.LpMinimize:
+            objective = [[-c, v] for c, v in objective]
         cs = []
         for name, c in prob.constraints.items():
             rel = {1: 'GE', -1: 'LE', 0: 'EQ'}[c.sense]
